@@ -1,2 +1,63 @@
--- driver stub (not built yet)
-def main : IO Unit := pure ()
+import QmcModel.Proto
+import QmcModel.Basic
+import QmcModel.Rand
+import QmcModel.BondContainer
+import QmcModel.Rvb
+open Qmc Qmc.Proto Qmc.Rvb
+
+/-! Driver for C03: pure helpers + `BondContainer` (mode `helpers`), RVB updates (mode `rvb`). -/
+
+def showKeys (ks : List (Nat × Rat)) : String :=
+  showList (fun kw => s!"{kw.1}:{showRat kw.2}") ks
+
+/-- run a `bc` script: tokens `i<k>:<w>`, `r<k>`, `c`, `g<word>`, `w<k>`, `h<k>` -/
+def runBc (ops : List String) : String :=
+  let rec go (c : BC) (ops : List String) (acc : List String) : BC × List String :=
+    match ops with
+    | [] => (c, acc)
+    | op :: rest =>
+      let body := (op.drop 1).toString
+      match op.front with
+      | 'i' =>
+        match body.splitOn ":" with
+        | [k, w] =>
+          let (c', new) := c.insert (parseNat k) (parseRat w)
+          go c' rest (acc ++ [showBool new])
+        | _ => (c, acc ++ ["bad"])
+      | 'r' =>
+        match c.remove (parseNat body) with
+        | some (c', b) => go c' rest (acc ++ [showBool b])
+        | none => (c, acc ++ ["P"])
+      | 'c' => go c.clear rest (acc ++ ["c"])
+      | 'w' =>
+        go c rest (acc ++ [match c.getWeight (parseNat body) with | some w => showRat w | none => "N"])
+      | 'h' => go c rest (acc ++ [showBool (c.contains (parseNat body))])
+      | 'g' =>
+        let (r, s) := c.getRandom (RS.ofScript [parseNat body])
+        let tok := match r with
+          | none => "N"
+          | some none => "P"
+          | some (some (k, w)) => if s.margin < 1 / 1000000000 then "?" else s!"{k}:{showRat w}"
+        go c rest (acc ++ [tok, s!"d{s.draws}"])
+      | _ => (c, acc ++ ["bad"])
+  let (c, acc) := go BC.empty ops []
+  String.intercalate " " (acc ++ [showKeys c.keys, showRat c.total])
+
+def sumR (l : List Rat) : Rat := l.foldl (· + ·) 0
+
+def step (toks : List String) : String :=
+  match toks with
+  | ["rd", l] => showNats (removeDoubles (parseNats l))
+  | ["fos", ps, pe, cutoff, fp] =>
+    match findOverlappingStarts (parseNat ps) (parseNat pe) (parseNat cutoff) (parseNats fp) with
+    | some l => showNats l
+    | none => "P"
+  | ["cm", b, a, n] =>
+    showApprox (calculateMult (sumR (parseRats b)) (sumR (parseRats a)) (parseNat n))
+  | ["cb", w] =>
+    let (n, s) := contiguousBits (RS.ofScript [parseNat w])
+    s!"{n} {s.draws}"
+  | ["bc", ops] => runBc (parseList id ops)
+  | _ => "bad-op"
+
+def main : IO Unit := run step
